@@ -69,6 +69,20 @@ func TestVerifC17Matches(t *testing.T) {
 				cs.violation("match-range-outside-input", "NearestMatch(%q) returned %+v; the normalised input has %d bytes", unknown, *nm, len(norm))
 				return
 			}
+			// a text that equals a known value only AFTER normalisation (re-flowed, extra
+			// blanks): the range still refers to the normalised text
+			reflowed := "  " + strings.ReplaceAll(v, " ", []string{"  ", "\n", " \t ", "\r\n"}[r.Intn(4)]) + " \n"
+			nr := c.normalize(reflowed)
+			if nm := c.NearestMatch(reflowed); nm != nil && (nm.Offset < 0 || nm.Extent < 0 || nm.Offset+nm.Extent > len(nr)) {
+				cs.violation("match-range-outside-input", "NearestMatch(%q) returned %+v; the normalised input has %d bytes", reflowed, *nm, len(nr))
+				return
+			}
+			for _, m := range c.MultipleMatch(reflowed) {
+				if m.Offset < 0 || m.Extent < 0 || m.Offset+m.Extent > len(nr) {
+					cs.violation("match-range-outside-input", "MultipleMatch(%q) returned %+v; the normalised input has %d bytes", reflowed, *m, len(nr))
+					return
+				}
+			}
 			e.count("match_ranges_checked", int64(len(ms)))
 			if len(ms) > 0 {
 				cs.nontrivial(unknown)
